@@ -175,13 +175,13 @@ func park(id uint32, ncases uint32) {
 }
 
 // goroutines left over from earlier executions never park again
-var banned [64]uint64
+var banned [8192]uint64
 var nbanned uint32
 
 //go:norace
 func isBanned(g uint64) bool {
 	n := rtLoad32(&nbanned)
-	for i := uint32(0); i < n && i < 64; i++ {
+	for i := uint32(0); i < n && i < 8192; i++ {
 		if rtLoad64(&banned[i]) == g {
 			return true
 		}
@@ -248,6 +248,11 @@ type Sched struct {
 
 var selSeen = map[string]uint64{}
 
+// timing statistics (diagnostics only)
+var StatRun, StatRelease, StatGrace time.Duration
+var StatNoEnabledSleeps, StatReleaseIters int
+
+
 // Run executes the drivers as concurrent threads under the scheduler; every scheduling decision is
 // an x.Choose. It returns when every driver has returned, or on deadlock / horizon.
 func Run(x *vexp.X, opt Options, drivers ...func()) *Sched {
@@ -303,7 +308,9 @@ func Run(x *vexp.X, opt Options, drivers ...func()) *Sched {
 		s.byLid = append(s.byLid, t)
 	}
 	s.nextLid = len(drivers)
+	t0 := time.Now()
 	s.loop()
+	StatRun += time.Since(t0)
 	return s
 }
 
@@ -464,6 +471,7 @@ func (s *Sched) loop() {
 		if len(enabled) == 0 {
 			// nothing can be granted: is anything still able to move on its own (timers)? give real time a chance
 			time.Sleep(2 * time.Millisecond)
+			StatNoEnabledSleeps++
 			blocked = s.settle()
 			for _, t := range s.order {
 				if !t.done && t.slot != nil && rtLoad32(&t.slot.state) == stParked {
@@ -593,9 +601,12 @@ func (s *Sched) Outcome() *Outcome { return &s.out }
 // every goroutine of this execution's world has exited, and reports the ones that have not.
 // Goroutines that stay blocked forever are banned from parking in later executions.
 func (s *Sched) Release(wait time.Duration) []string {
+	t0 := time.Now()
+	defer func() { StatRelease += time.Since(t0) }()
 	rtStore32(&active, 0)
 	deadline := time.Now().Add(wait)
 	var survivors []string
+	blockedRounds := 0
 	for {
 		runtime.Gosched()
 		n := rtSnapshot(s.buf)
@@ -639,7 +650,7 @@ func (s *Sched) Release(wait time.Duration) []string {
 			for _, g := range s.buf[:n] {
 				if s.world[g.Goid] {
 					k := rtLoad32(&nbanned)
-					if k < 64 {
+					if k < 8192 {
 						rtStore64(&banned[k], g.Goid)
 						rtStore32(&nbanned, k+1)
 					} else {
@@ -651,12 +662,19 @@ func (s *Sched) Release(wait time.Duration) []string {
 			break
 		}
 		if !running {
-			// everything left is blocked: give it a short grace period only
-			if time.Until(deadline) > 30*time.Millisecond {
-				deadline = time.Now().Add(30 * time.Millisecond)
+			// everything left is blocked: re-check a few times (another goroutine outside this world, e.g.
+			// a channel drainer, might still release it), then give up on them
+			blockedRounds++
+			if blockedRounds > 200 && time.Until(deadline) > 0 {
+				deadline = time.Now()
 			}
+		} else {
+			blockedRounds = 0
 		}
-		time.Sleep(200 * time.Microsecond)
+		StatReleaseIters++
+		if StatReleaseIters%256 == 255 {
+			time.Sleep(100 * time.Microsecond) // let a goroutine that is in a system call finish
+		}
 	}
 	s.out.Survivors = append([]string{}, survivors...)
 	return s.out.Survivors
